@@ -319,6 +319,8 @@ Definition judge (comp : bytes) (args : list bytes) : list bytes :=
   else if beq comp (s2b "proxy-C17") then judge_proxy_twin args
   else if beq comp (s2b "proxytb-C01") then RunProxyTB.judge_tb_with false judge_C01_event args
   else if beq comp (s2b "proxytb-C06") then RunProxyTB.judge_tb_with false judge_C06_event args
+  else if beq comp (s2b "proxytb-C07") then RunProxyTB.judge_tb_with false judge_C07_event args
+  else if beq comp (s2b "proxytb-C02") then RunProxyTB.judge_tb_with false judge_C02_event args
   else if beq comp (s2b "proxytb-C03") then RunProxyTB.judge_tb_with true judge_C03_event args
   else if beq comp (s2b "proxytb-C04") then RunProxyTB.judge_tb_hist args
   else match judge_bufio comp args with Some r => r | None => [s2b "unknown-component"] end.
